@@ -3,12 +3,14 @@
 cd "$(dirname "$0")"
 TIER="${1:-quick}"
 rc=0
+mkdir -p replays; : > "replays/known_matched_$TIER.txt"   # which finding entries matched (tools/stale_findings.py)
 for id in $(python3 -c "import json;print(' '.join(c['property_id'] for c in json.load(open('MANIFEST.json'))['checks']))"); do
   s=$(date +%s)
   out=$(./check "$id" --tier "$TIER" 2>&1); code=$?
   e=$(( $(date +%s) - s ))
   viol=$(echo "$out" | grep -c '^VIOLATION')
   known=$(echo "$out" | grep -c '^KNOWN-FINDING')
+  echo "$out" | grep '^KNOWN-FINDING' >> "replays/known_matched_$TIER.txt"
   echo "$id exit=$code violations=$viol known_findings=$known ${e}s"
   [ $code -ne 0 ] && { rc=1; echo "$out" | grep -v '^KNOWN' | tail -5; }
 done
